@@ -62,6 +62,10 @@ def parse_kani(out):
         res['covers'] = dict(sat=int(m.group(1)), total=int(m.group(2)))
     if 'VERIFICATION:- SUCCESSFUL' in out:
         res['status'] = 'ok'
+    elif 'VERIFICATION:- FAILED' in out and ('CBMC appears to have run out of memory' in out or 'CBMC failed' in out
+                                             or not re.search(r'\*\* [1-9]\d* of \d+ failed', out)):
+        # killed / out of memory / crashed solver (no failed check reported): a tool failure, never a verdict
+        res['status'] = 'tool-failure'
     elif 'VERIFICATION:- FAILED' in out:
         res['status'] = 'fail'
         # Failed Checks: <desc>\n File: "<file>", line N, in <fn>
@@ -80,21 +84,34 @@ def parse_kani(out):
     return res
 
 
+def _run_group(cmd, cwd, env, timeout):
+    """run cmd in its own process group; on timeout kill only that group (other checks may be running cbmc too)"""
+    import signal
+    p = subprocess.Popen(cmd, cwd=cwd, env=env, stdout=subprocess.PIPE, stderr=subprocess.PIPE, text=True,
+                         start_new_session=True)
+    try:
+        so, se = p.communicate(timeout=timeout)
+        return p.returncode, so, se, False
+    except subprocess.TimeoutExpired:
+        try:
+            os.killpg(p.pid, signal.SIGKILL)
+        except Exception:
+            pass
+        so, se = p.communicate()
+        return 124, so or '', se or '', True
+
+
 def run_one(crate_dir, target_dir, h, timeout):
     name = h['name']
     cmd = ['cargo', 'kani', '--harness', name, '--exact', '--target-dir', target_dir, '--output-format', 'regular']
     cmd += h.get('args', [])
     env = dict(os.environ, CARGO_NET_OFFLINE='true')
     t0 = time.time()
-    try:
-        p = subprocess.run(cmd, cwd=crate_dir, capture_output=True, text=True, timeout=timeout, env=env)
-        out = p.stdout + '\n' + p.stderr
-    except subprocess.TimeoutExpired as e:
-        out = 'TIMEOUT\n' + ((e.stdout or b'').decode(errors='replace') if isinstance(e.stdout, bytes) else (e.stdout or ''))
-        subprocess.run(['pkill', '-x', 'cbmc'], capture_output=True)
+    rc, so, se, timed_out = _run_group(cmd, crate_dir, env, timeout)
+    out = ('TIMEOUT\n' if timed_out else '') + so + '\n' + se
     wall = time.time() - t0
     r = parse_kani(out)
-    if r['status'] == 'error' and 'TIMEOUT' in out[:10]:
+    if timed_out:
         r['status'] = 'timeout'
     r.update(name=name, wall_s=round(wall, 1), bounded=h.get('bounded'), tail=out[-3000:] if r['status'] != 'ok' else '')
     if r['status'] == 'fail' and h.get('playback', True):
